@@ -974,11 +974,12 @@ def json_equiv(a, b):
 def suite_wire(ck, sessions, n_values, judge=True):
     for ses in sessions:
         cases = []
+        gen = values.ValueGen(ck.rng, ses.api, ses.ts, aware_ts=True)
         for label, ir in ses.types:
             validator = ses.validator(label, ir)
             irt = irdump.ir_ty(ir)
             for _ in range(n_values):
-                tv = ses.gen.valid(ir)
+                tv = gen.valid(ir)
                 if tv is None:
                     continue
                 built = outcome(lambda: ses.codec.build_checked(tv))
